@@ -41,7 +41,7 @@ func init() {
 			"a claim starts at the offset manager's NextOffset (or the initial position) and falls back to the initial position only on ErrOffsetOutOfRange, reporting the offset actually used (C07.start-offset); join/sync/heartbeat/leave/commit requests carry the member id and generation the coordinator issued (C07.identity); both coordinator switches treat the same codes alike, a fenced member resets its id before rejoining and budgeted retries test the budget (C07.fenced); member state is accessed under the group lock, which Consume holds for the whole session (C07.lock). " +
 			"Shared with C06 for the clause 'a final commit of the marked offsets': an acknowledgement clears the dirty flag only if the position still equals the committed one, and the final flush is retried up to Offsets.Retry.Max (C06.keep-dirty, C06.close). " +
 			"NOT covered: coverage of the log across sessions, commit-before-return under coordinator faults, the coordinator's own behaviour.",
-		Rules: []func(*Ctx){c07Order, c07ClaimWG, c07StartOffset, c07Identity, c07Fenced, c07Lock, c07Dying, c06KeepDirty, c06Commit, c06Close, c06Remaining},
+		Rules: []func(*Ctx){c07Order, c07ClaimWG, c07StartOffset, c07Identity, c07Fenced, c07Lock, c07Dying, c06KeepDirty, c06Commit, c06Close, c06Remaining, c07ErrLost, c06Recover},
 	})
 }
 
@@ -209,7 +209,7 @@ func c07StartOffset(c *Ctx) {
 	p := c.P
 	rule := "C07.start-offset"
 	c.Doc(rule, "consume: the claim's offset is pom.NextOffset() when the partition is managed, else Offsets.Initial; newConsumerGroupClaim: retry with Offsets.Initial only under err == ErrOffsetOutOfRange; InitialOffset() is the offset actually used")
-	c.Floor(rule, 3)
+	c.Floor(rule, 4)
 	initial := FieldLoad("Config.Consumer.Offsets.Initial")
 	if fn := c.NeedFn(rule, "consumerGroupSession.consume"); fn != nil {
 		cs := Info(fn).Find(p.CallTo("newConsumerGroupClaim"))
@@ -219,6 +219,41 @@ func c07StartOffset(c *Ctx) {
 			a := callArgs(cs[0])
 			ok := len(a) == 4 && AllEdges(initial, p.ResultOf(0, "partitionOffsetManager.NextOffset"))(a[3])
 			c.Check(ok, rule, fn, "claim-offset", cs[0].Instr(), "claim offset ← pom.NextOffset() or Offsets.Initial", "the claim does not start at the offset manager's next offset (got "+describe(a[3])+"): committed progress is ignored", nil)
+		}
+	}
+	// every claimed partition is managed: a session is not started with a partition whose offset manager could not be
+	// created (consume would fall back to Offsets.Initial for it and drop its marks)
+	if fn := c.NeedFn(rule, "newConsumerGroupSession"); fn != nil {
+		reg := WholeFn(fn)
+		ms := reg.Find(p.CallTo("OffsetManager.ManagePartition", "offsetManager.ManagePartition"))
+		if len(ms) == 0 {
+			c.Unresolved(rule, "ManagePartition call in newConsumerGroupSession")
+		}
+		for _, s := range ms {
+			cl, ok := s.In.(*ssa.Call)
+			if !ok {
+				continue
+			}
+			var errV ssa.Value
+			for _, r := range *cl.Referrers() {
+				if ex, ok := r.(*ssa.Extract); ok && ex.Index == 1 {
+					errV = ex
+				}
+			}
+			bad := errV == nil
+			var wpath []*ssa.BasicBlock
+			if errV != nil {
+				edges := reg.EstablishingEdges(Cmp{token.NEQ, Same(errV), IsNil()})
+				if len(edges) == 0 {
+					bad = true
+				}
+				for _, e := range edges {
+					if it, path := reg.From(Pt{e.To, 0}).Reach(ReturnNilErr(), nil); !it.IsZero() {
+						bad, wpath = true, path
+					}
+				}
+			}
+			c.Check(!bad, rule, fn, "unmanaged-partition-aborts-session", cl, "a partition whose offset manager cannot be created makes session creation fail", "newConsumerGroupSession can return a session although ManagePartition failed for one of its partitions: that claim starts at Offsets.Initial instead of the group's committed offset (records skipped with OffsetNewest) and its marks are dropped", wpath)
 		}
 	}
 	if fn := c.NeedFn(rule, "newConsumerGroupClaim"); fn != nil {
